@@ -257,7 +257,9 @@ static int configRemove(MPT_INTERFACE(config) *cfg, const MPT_STRUCT(path) *path
 		return 0;
 	}
 	if (b == nodeGlobal) {
-		nodeGlobal = b->next;
+		if ((nodeGlobal = b->next)) {
+			nodeGlobal->prev = 0;
+		}
 		b->next = 0;
 	} else {
 		mpt_node_unlink(b);
